@@ -33,7 +33,11 @@ def harness_full_names():
                 continue
             rel = os.path.relpath(os.path.join(root, f), kd)
             mod = rel[:-3].replace("/", "::")
-            for m in re.finditer(r"^\s*harness!\(\s*(\w+)\s*,", open(os.path.join(root, f)).read(), re.M):
+            txt = open(os.path.join(root, f)).read()
+            for m in re.finditer(r"^\s*harness!\(\s*(\w+)\s*,", txt, re.M):
+                out[m.group(1)] = "verif_kani::%s::%s" % (mod, m.group(1))
+            # rows of the tag_harnesses! table: `rel_tag_rej_x, rel_tag_x, ...;`
+            for m in re.finditer(r"^\s*(rel_tag_\w+),\s*h_t\w+,", txt, re.M):
                 out[m.group(1)] = "verif_kani::%s::%s" % (mod, m.group(1))
     return out
 
